@@ -14,13 +14,13 @@ import (
 	"verifharness/gen"
 )
 
-type ecCand struct {
+type wecCand struct {
 	b    []byte
 	kind string
 }
 
 // c11Nonce draws a per-message secret for the oracle's own signatures.
-func c11Nonce(g *gen.G, label string, cv *ecCurve) *big.Int {
+func c11Nonce(g *gen.G, label string, cv *wecCurve) *big.Int {
 	switch g.Int(label+"Kind", 0, 4) {
 	case 0:
 		return big.NewInt(1)
@@ -44,11 +44,11 @@ var c11CostlyKinds = []string{
 
 func TestC11_Exact(t *testing.T) {
 	gen.Run(t, "C11", func(g *gen.G) {
-		cv := ecDrawCurve(g, "curve")
+		cv := wecDrawCurve(g, "curve")
 		n := cv.c.N
-		k := ecDrawKey(g, "key", cv)
+		k := wecDrawKey(g, "key", cv)
 		msg := g.Bytes("msg", 0, 300)
-		hs := ecDrawHasher(g, "hasher", cv)
+		hs := wecDrawHasher(g, "hasher", cv)
 		h := hs.h
 		if h.Size() != hs.size {
 			g.Fatalf("%s: Size() = %d, want %d", hs.desc, h.Size(), hs.size)
@@ -61,7 +61,7 @@ func TestC11_Exact(t *testing.T) {
 		ctx := fmt.Sprintf("%v, message %x, %s", k, msg, hs.desc)
 
 		// the oracle's view: public point d·G and the leftmost 256 bits of the digest
-		q, rawPub, _ := ecPub(cv, k.d)
+		q, rawPub, _ := wecPub(cv, k.d)
 		if enc := k.pk.Encode(); !bytes.Equal(enc, rawPub) {
 			g.Fatalf("%v: PublicKey().Encode() = %x, the oracle computes d·G = X‖Y = %x", k, enc, rawPub)
 		}
@@ -75,7 +75,7 @@ func TestC11_Exact(t *testing.T) {
 			if len(c) != 64 {
 				return false
 			}
-			r, s := ecSplit(c)
+			r, s := wecSplit(c)
 			return cv.c.Verify(q.X, q.Y, e, r, s)
 		}
 
@@ -88,15 +88,16 @@ func TestC11_Exact(t *testing.T) {
 			g.Fatalf("Sign returned %d bytes (%x) under %s, want 64 bytes r‖s", len(sig), []byte(sig), ctx)
 		}
 		libSig := append([]byte{}, sig...)
-		libR, libS := ecSplit(libSig)
+		g.Note("library signature (randomized, differs in a replay): %x", libSig)
+		libR, libS := wecSplit(libSig)
 
-		var cands []ecCand
-		add := func(b []byte, kind string) { cands = append(cands, ecCand{append([]byte{}, b...), kind}) }
+		var cands []wecCand
+		add := func(b []byte, kind string) { cands = append(cands, wecCand{append([]byte{}, b...), kind}) }
 		add(libSig, "libSig")
 
 		// second key and message: used by some candidates and by the
 		// "format check false ⇒ rejected for every key and message" clause
-		k2 := ecDrawKey(g, "key2", cv)
+		k2 := wecDrawKey(g, "key2", cv)
 		var msg2 []byte
 		switch g.Int("msg2Kind", 0, 3) {
 		case 0:
@@ -133,7 +134,7 @@ func TestC11_Exact(t *testing.T) {
 			switch kind := c11CostlyKinds[idx]; kind {
 			case "oracleSig":
 				if r, s, ok := oracleSign("nonce", e); ok {
-					add(ecJoin(r, s), kind)
+					add(wecJoin(r, s), kind)
 				}
 			case "oracleLeadingZeroR":
 				xs, _ := cv.smallTables()
@@ -142,7 +143,7 @@ func TestC11_Exact(t *testing.T) {
 				}
 				nonce := big.NewInt(xs[g.Pick("nonceLeadingZero", len(xs))])
 				if r, s, ok := cv.c.SignWithNonce(k.d, e, nonce); ok {
-					b := ecJoin(r, s)
+					b := wecJoin(r, s)
 					if b[0] != 0 {
 						g.Fatalf("harness error: nonce %v does not give an r with a leading zero byte: %x", nonce, b)
 					}
@@ -150,13 +151,13 @@ func TestC11_Exact(t *testing.T) {
 					add(b[1:], "strippedLeadingZero") // 63 bytes: minimal-length r is not the format
 				}
 			case "twin":
-				add(ecJoin(libR, new(big.Int).Sub(n, libS)), kind)
+				add(wecJoin(libR, new(big.Int).Sub(n, libS)), kind)
 			case "oracleTwin":
 				if r, s, ok := oracleSign("nonceTwin", e); ok {
-					add(ecJoin(r, new(big.Int).Sub(n, s)), kind)
+					add(wecJoin(r, new(big.Int).Sub(n, s)), kind)
 				}
 			case "swapped":
-				add(ecJoin(libS, libR), kind)
+				add(wecJoin(libS, libR), kind)
 			case "bitflip":
 				b := append([]byte{}, libSig...)
 				pos := g.Int("flipPos", 0, 511)
@@ -182,7 +183,7 @@ func TestC11_Exact(t *testing.T) {
 				if k.d.Cmp(ocv.c.N) >= 0 {
 					break
 				}
-				osk := ecDecodeSK(g, ocv, k.d)
+				osk := wecDecodeSK(g, ocv, k.d)
 				s2, err := osk.Sign(msg, h)
 				if err != nil {
 					g.Fatalf("Sign failed under %s key d=%x, message %x, %s: %v", ocv.name, scalarBytes(k.d), msg, hs.desc, err)
@@ -201,20 +202,20 @@ func TestC11_Exact(t *testing.T) {
 				} else {
 					v.Add(v, one)
 				}
-				add(ecJoin(r, s), kind)
+				add(wecJoin(r, s), kind)
 			case "negatedR":
 				s := libS
 				if g.Bool("negateBoth") {
 					s = new(big.Int).Sub(n, libS)
 				}
-				add(ecJoin(new(big.Int).Sub(n, libR), s), kind)
+				add(wecJoin(new(big.Int).Sub(n, libR), s), kind)
 			case "rightmostDigest":
 				// a signature over the rightmost instead of the leftmost 256 bits
 				if hs.size == 32 {
 					break
 				}
 				if r, s, ok := oracleSign("nonceRightmost", full[hs.size-32:]); ok {
-					add(ecJoin(r, s), kind)
+					add(wecJoin(r, s), kind)
 				}
 			}
 		}
@@ -223,8 +224,8 @@ func TestC11_Exact(t *testing.T) {
 		two256m1 := new(big.Int).Sub(new(big.Int).Lsh(one, 256), one)
 		for i, v := range []*big.Int{new(big.Int), n, new(big.Int).Add(n, one), two256m1} {
 			name := []string{"0", "n", "n+1", "2^256-1"}[i]
-			add(ecJoin(v, libS), "r="+name)
-			add(ecJoin(libR, v), "s="+name)
+			add(wecJoin(v, libS), "r="+name)
+			add(wecJoin(libR, v), "s="+name)
 		}
 		add(make([]byte, 64), "allZero")
 		add(append([]byte{0}, libSig...), "zeroPrefixed")
@@ -235,7 +236,7 @@ func TestC11_Exact(t *testing.T) {
 			}
 			b := make([]byte, L)
 			copy(b, libSig)
-			cands = append(cands, ecCand{b, "everyLength"})
+			cands = append(cands, wecCand{b, "everyLength"})
 		}
 		if L := g.Int("randLen", 0, 130); L != 64 {
 			add(g.Expand("randLenData", L), "randomBytesOtherLength")
@@ -247,7 +248,7 @@ func TestC11_Exact(t *testing.T) {
 		formatOKRejected, twinAccepted := false, false
 		seen := map[string]bool{}
 		for _, c := range cands {
-			fmtWant := ecFormatOK(cv, c.b)
+			fmtWant := wecFormatOK(cv, c.b)
 			fmtGot, err := crypto.SignatureFormatCheck(cv.algo, c.b)
 			if err != nil {
 				g.Fatalf("SignatureFormatCheck(%s, %s candidate %x) returned error %v", cv.name, c.kind, c.b, err)
@@ -310,8 +311,8 @@ func TestC11_Exact(t *testing.T) {
 // the smallest accepted size.
 func TestC11_Hasher(t *testing.T) {
 	gen.Run(t, "C11", func(g *gen.G) {
-		cv := ecDrawCurve(g, "curve")
-		k := ecDrawKey(g, "key", cv)
+		cv := wecDrawCurve(g, "curve")
+		k := wecDrawKey(g, "key", cv)
 		msg := g.Bytes("msg", 0, 60)
 		// a well-formed signature made with a proper hasher, or garbage
 		var sig []byte
